@@ -75,7 +75,7 @@ fn sign1_case(g: &mut Gen, ctx: &mut Ctx) -> CaseResult {
     // builder helpers (need a built header)
     if let Some(h) = &prot.built {
         let seen = RefCell::new(vec![]);
-        let mut b = CoseSign1Builder::new().protected(h.clone());
+        let mut b = crate::builder_with_headers!(CoseSign1Builder, g, h);
         match mode {
             0 => {
                 b = b.payload(payload.clone());
@@ -222,7 +222,7 @@ fn sign_case(g: &mut Gen, ctx: &mut Ctx) -> CaseResult {
     // builder: add_created_signature & friends (body must be built)
     if let Some(bh) = &body.built {
         let seen = RefCell::new(vec![]);
-        let mut b = CoseSignBuilder::new().protected(bh.clone());
+        let mut b = crate::builder_with_headers!(CoseSignBuilder, g, bh);
         if mode == 0 {
             b = b.payload(payload.clone());
         }
